@@ -326,6 +326,9 @@ func (e *Engine) load(st *State, p PtrV, pos token.Pos) Val {
 		return v
 	}
 	e.nilCheck(st, p, pos)
+	if cp, ok := e.constPointerGlobal(p); ok {
+		return cp
+	}
 	if p.ArrBase {
 		// whole array value out of the element maps
 		at := et.Underlying().(*types.Array)
